@@ -138,6 +138,13 @@ pub fn run(case: &Value, ctx: &Ctx) -> Outcome {
                 }
                 (_, e) => out.fail(if r.panicked() { "fold/cli/panic" } else { "fold/cli/error" }, json!({"fill": fname, "code": r.code, "stderr": r.stderr, "parse": format!("{e:?}")})),
             }
+            // the same fold delivered with -o onto a file that holds an older, LONGER result: the file must hold exactly what
+            // stdout got (a folded spectrum with a stale tail is another spectrum, or none)
+            if fname == "zero" && r.ok() {
+                let (f, left) = cli::sfs_onto_stale_file(ctx, &["fold", "--fill", fname, "--precision", "1"], &text, "fold");
+                out.check(f.ok() && !left && f.stdout == r.stdout, || "fold/cli/stale-destination".into(),
+                    || json!({"code": f.code, "stderr": f.stderr, "file_len": f.stdout.len(), "stdout_len": r.stdout.len(), "also_on_stdout": left}));
+            }
         }
         }
     }
